@@ -10,28 +10,54 @@ import time
 from ..gen import cells as G
 from ..workmeter import measure
 
+
+def _regen_tl_cost_table():
+    from ..translate import tl_cost
+    return tl_cost.regenerate()
+
 SPEC = dict(
     manifest=dict(
         category='proof',
-        text='PARTIAL. Lean proves, for the step-counting model of the code as written (Model/Cost.lean), for EVERY input: the '
-             'iterative Cell.order does exactly-bounded work <= 1+n+e loop iterations on any node list with n cells and e references '
-             '(shared sub-DAGs are expanded once: visited-set potential argument), to_boc <= 5(n+e)+1+bytes steps, the BoC parser '
-             'loops <= 3*len+4 iterations (outer loops <= len+1: every loop driven by cells_num/roots_num/index counts is cut by a '
-             'length check), the dictionary parser <= 2 steps per node of the unfolded dictionary tree (bound in the size of the '
-             'output), and for the TL parser: the bytes re-parse loop and the (repaired, F16) vector loop are bounded by the remaining '
-             'input for any inner parser, and the whole model never runs out of its depth fuel. The theorems are about the model\'s '
-             'cost function; the tie to the real cost is a measured inequality lines <= A*steps+B (Python line events counted by '
-             'sys.monitoring inside pytoniq_core during one call, constants calibrated once with ~4x slack, design/C19.md) on '
-             'adversarial families (2-refs-to-same-child chains to length 1000, depth-1023 chains, diamonds, huge count fields over '
-             'short bodies, TL vectors declaring up to 2^32-1 elements, bytes re-parse towers, dictionaries with bogus labels and '
-             'maximal sharing) plus a 2 s wall-clock cap per call. C-level costs (bytes slicing cells_data[i:], hashing, bitarray) '
-             'are visible only through the line-count proxy and the wall-clock cap.',
+        text='PARTIAL (the theorems are about a cost MODEL; the tie to the real cost is measured). Lean proves, for the step-counting '
+             'model of the code as written (Model/Cost.lean), for EVERY input: (1) the iterative Cell.order does <= 1+n+e loop iterations on '
+             'any node list with n cells and e references (shared sub-DAGs are expanded once: visited-set potential argument; the bound is '
+             'attained); to_boc <= 5(n+e)+1+bytes steps. (2) Constructing/hashing: Cell.__init__ runs once per distinct cell and reads the '
+             'referenced cells\' cached masks/depths/hashes, <= 4n+9e loop iterations and <= 4*(descriptor+data bytes)+136(n+e) bytes fed to '
+             'SHA-256 for <= 4 hashes per cell (c19_build_linear; hashWork = 4(n+e) exactly). (3) The BoC parser: all loop iterations <= '
+             '3*len+5, the three outer loops <= len+1: every loop driven by cells_num/roots_num/index counts is cut by a length check. '
+             '(4) TL, c19_tl_total: for every schema table whose ids have 4 bytes and whose BARE references (fields parsed without a '
+             'constructor id) form no cycle (NoBareCycle tbl R, decidable; proved by kernel evaluation for the bundled 829-row table, '
+             'which is regenerated from the .tl files on every run: R = 4), every byte string, boxed or bare start: the deserialize model '
+             'with depth fuel (len/4+1)(R+2) never runs out of fuel and makes <= K(tbl)*(len+1)^2 steps -- a function of the input LENGTH '
+             'and a table constant only, never of a declared vector or bytes length (the vector loop is bounded through the guard of the '
+             'F16 repair, the bytes re-parse loop through j advancing). The square is real (a vector of a field-less bare type iterates '
+             'without consuming; example family 176/751/3101 steps for 48/88/168 bytes) and harmless (a few hundred bytes = ~10^4 steps). '
+             'The side condition is necessary: a table "a x:a = A" recurses for ever on the empty input (c19_tl_bare_cycle_diverges; in '
+             'Python RecursionError); not reachable with the bundled schemas. K(tbl) = 1+tlA(maxFields, R+2) is a crude worst case over '
+             'all tables of that shape. (5) DICTIONARIES ARE OUTPUT-BOUNDED, NOT INPUT-BOUNDED: a parse that returns makes exactly '
+             '4*(entries+stops)-2 calls (entries = keys in the result, stops = edges ending in a pruned/library cell) and <= (1+B) times '
+             'as many steps with the unary-label loop (B = max bits per cell) (c19_dict_output, c19_dict_total); always <= 2 calls per node '
+             'of the tree UNFOLDED from the root. The bag can be exponentially smaller than that tree: ~250 bytes whose 30 forks reference '
+             'the same child twice are a legitimate 2^30-entry dictionary, and over a pruned/exotic bottom cell the same 2^30 steps return an '
+             'EMPTY result (stops = 2^30). For load_dict the sentence "a few-hundred-byte input cannot run long" therefore does NOT hold; the '
+             'property is read as work <= c*(output entries + pruned edges) for dictionaries (not repaired: an eager dict-returning API '
+             'must materialise the unfolded tree). The tie to the real cost is a measured inequality lines <= A*steps+B (Python line events '
+             'counted by sys.monitoring inside pytoniq_core during one call, constants calibrated once with ~4x slack, design/C19.md) on '
+             'adversarial families (2-refs-to-same-child chains to length 1000, depth-1023 chains, level-3 cells, diamonds, huge count '
+             'fields over short bodies, TL vectors declaring up to 2^32-1 elements, bytes re-parse towers, dictionaries with bogus labels '
+             'and maximal sharing) plus a 2 s wall-clock cap per call; also compared: cell order, len(to_boc), number of sha256 objects and '
+             'bytes hashed while constructing a DAG (= one per hashed level per DISTINCT cell), dictionary entries returned = entries '
+             'counted by the model, side conditions of c19_tl_total on every table sent to the driver. C-level costs (bytes slicing '
+             'cells_data[i:], hashing, bitarray) are visible only through the line-count proxy and the wall-clock cap.',
         level_note='Trusted: Lean kernel (propext, Classical.choice, Quot.sound); Model/Cost.lean as a hand transcription of the loops of '
-                   'cell.py (order, to_boc), deserialize.py, hashmap/parse.py, tl/generator.py (upper-bound convention: validity failures '
-                   'that only cut work short are not modelled); the measured tie lines <= A*steps+B holds on the sampled inputs only; '
-                   'the line count is a proxy for cost (C-level work invisible); harness/workmeter.py and the Python harness.',
+                   'cell.py (order, to_boc, __init__/calculate_hashes), deserialize.py, hashmap/parse.py, tl/generator.py (upper-bound '
+                   'convention: validity failures that only cut work short are not modelled); harness/translate/tl_cost.py + TlEnv (the bundled '
+                   'schema table in the cost model\'s syntax, same object the measured TL cases use); the measured tie lines <= A*steps+B holds '
+                   'on the sampled inputs only; the line count is a proxy for cost (C-level work invisible); harness/workmeter.py and the Python '
+                   'harness.',
         technique='Lean 4 proof about a step-counting model + measured work inequality (sys.monitoring line counts) against the library',
     ),
+    translators=[('bundled tl schemas->Generated/TlCostTable.lean', _regen_tl_cost_table)],
     design_ref='DESIGN.md §6 C19',
     rule='one case = one public call on one adversarial input with its model step count; families: double/triple-ref chains 10..1000, '
          'depth-1023 chains, diamonds, wide sharing, random DAGs (order, to_boc x flag sets, from_boc, construction); BoC byte strings '
@@ -44,7 +70,9 @@ SPEC = dict(
                   'constants A,B per operation fixed in harness/props/C19.py (calibrated once, ~4x slack)'],
     assumptions=['line events are a proxy of cost: C-level work (slicing, sha256, bitarray) is not counted',
                  'the tie is a sampled inequality, not a proof about CPython',
-                 'the TL vector loop is modelled with the guard of the pending F16 repair (length > remaining bytes raises)'],
+                 'TL: the table has no cycle of bare references (NoBareCycle; proved for the bundled table, checked by the driver for every '
+                 'table of the measured cases); user-supplied cyclic tables end in RecursionError',
+                 'dictionaries: work is bounded by the unfolded tree = result entries + pruned edges, not by the size of the bag'],
 )
 
 # ----------------------------------------------------------------------------- calibrated constants  (design/C19.md)
@@ -157,6 +185,77 @@ def fam_random(rng, n):
     return nodes
 
 
+def fam_levels(depth, width):
+    """a pruned branch of level 3 at the bottom: every cell above has level mask 7, so its constructor computes 4 hashes"""
+    pr = format(1, '08b') + format(7, '08b') + ''.join(format(i + 1, '0256b') for i in range(3)) + ''.join(format(i, '016b') for i in range(3))
+    nodes = [(G.PRUNED, pr, ())]
+    for i in range(depth):
+        nodes.append((G.ORD, ubits(i + 1, i % 9), tuple([i] * width)))
+    return nodes
+
+
+class _ShaCount:
+    """stands in for the `hashlib` module inside pytoniq_core.boc.cell: counts sha256 objects and the bytes fed to them"""
+
+    def __init__(self):
+        import hashlib
+        self._h = hashlib
+        self.calls = 0
+        self.bytes = 0
+
+    def sha256(self, data=b''):
+        outer = self
+        outer.calls += 1
+        outer.bytes += len(data)
+        h = self._h.sha256(data)
+
+        class W:
+            def update(self, d):
+                outer.bytes += len(d)
+                h.update(d)
+
+            def digest(self):
+                return h.digest()
+
+            def hexdigest(self):
+                return h.hexdigest()
+        return W()
+
+    def __getattr__(self, k):
+        return getattr(self._h, k)
+
+
+def check_build_hashing(ctx, nodes, arg, inp, tag):
+    """c19_build_linear on the library: constructing the DAG (children first, one constructor call per distinct cell) creates
+    exactly sum(lv) sha256 objects and feeds them at most buildBytes bytes -- children's hashes are read from their cache,
+    never recomputed per path."""
+    import pytoniq_core.boc.cell as cellmod
+    cnt = _ShaCount()
+    saved = cellmod.hashlib
+    cellmod.hashlib = cnt
+    try:
+        cells = G.lib_build(nodes, 'ctor')
+    finally:
+        cellmod.hashlib = saved
+    if any(c is None for c in cells):
+        return
+    lvs = [1 if c.type_ == G.PRUNED else bin(c.level_mask.mask).count('1') + 1 for c in cells]
+    a = ctx.model.run([f"costbuild {arg} {'.'.join(map(str, lvs))}"])[0].split()
+    steps, nbytes, cbytes, n, e, hw, ok4 = (int(x) for x in a[1:8])
+    ctx.case(('build-sha', repr(inp)[:4000]), nontrivial=n > 1, sample={'op': 'build-sha', 'sha_calls': cnt.calls, 'sha_bytes': cnt.bytes,
+                                                                       'model_bytes': nbytes, 'n': n, 'e': e})
+    ctx.count('op:build-sha')
+    ctx.count(f'build-sha:max-levels={max(lvs)}')
+    if ok4 != 1 or hw != 4 * (n + e) or steps > 4 * n + 9 * e or nbytes > 4 * cbytes + 136 * (n + e):
+        ctx.corr_broken(f'cost model: build numbers of {tag} contradict c19_build_linear / c19_hash_work_closed: {a}')
+    if cnt.calls != sum(lvs) or cnt.calls > 4 * n:
+        ctx.fail('build:sha-calls', f'constructing {n} distinct cells created {cnt.calls} sha256 objects, expected one per hashed level '
+                                    f'= {sum(lvs)} (<= 4 per cell): hashes of referenced cells are recomputed', inp, cnt.calls, sum(lvs))
+    elif cnt.bytes > nbytes:
+        ctx.fail('build:sha-bytes', f'constructing {n} distinct cells hashed {cnt.bytes} bytes > model bound {nbytes} '
+                                    f'(levels*(max(size,34)+34*refs) per cell)', inp, cnt.bytes, f'<= {nbytes}')
+
+
 def dag_arg(nodes):
     return '|'.join(f"{2 + (len(b) + 7) // 8},{'.'.join(map(str, r)) or '-'}" for _, b, r in nodes)
 
@@ -180,6 +279,7 @@ def check_dag(ctx, nodes, tag, flagsets=('000', '111')):
     m = metered('build', hash_work, build)
     if not judge(ctx, 'build', hash_work, m, inp, 'constructing/hashing the DAG'):
         return
+    check_build_hashing(ctx, nodes, arg, inp, tag)
     cells = box['cells']
     root = cells[-1]
     if root is None:
@@ -399,6 +499,9 @@ def check_dict(ctx, nodes, key_len, tag):
     ncalls = int(calls.split('.')[1])
     if ncalls > 2 * tsize:
         ctx.corr_broken(f'dict model: calls {ncalls} > 2*treeSize {2 * tsize} on {tag} (contradicts c19_dict_parse)')
+    entries, stops = int(a[4]), int(a[5])
+    if calls.startswith('done') and ncalls + 2 != 4 * (entries + stops):
+        ctx.corr_broken(f'dict model: calls {ncalls} != 4*(entries {entries} + stops {stops}) - 2 on {tag} (contradicts c19_dict_output)')
     inp = {'dict': [list(n) for n in nodes], 'key_len': key_len, 'tag': tag}
     try:
         cells = dd_build(nodes)
@@ -413,6 +516,11 @@ def check_dict(ctx, nodes, key_len, tag):
     ctx.count('dict-model:' + res.split('.')[0])
     if judge(ctx, 'dict', steps, m, inp, 'HashMap.parse'):
         lib_raised = m.exc is not None
+        # output-bounded reading (c19_dict_output): the entries the model counts are the entries the library returns
+        if res.startswith('done') and not lib_raised and isinstance(m.result, dict) and key_len != 0 and root.type_ == -1:
+            ctx.count('dict:entries-compared')
+            if len(m.result) != entries:
+                ctx.corr_broken(f'dict model: {entries} entries (dictOut) but the library returned {len(m.result)} on {tag}')
         if res.startswith('done') and lib_raised and not isinstance(m.exc, RecursionError):
             ctx.count('dict:model-done-lib-raised')
     return m
@@ -556,6 +664,8 @@ class TlEnv:
     def gen_fields(self, rng, s, depth):
         S = self.schemas
         out = b''
+        if depth < -12:                 # a table with a bare cycle: do not follow it for ever
+            return out
         for field, t in s.args.items():
             if '?' in t:
                 t = t.split('?')[-1]
@@ -599,6 +709,66 @@ class TlEnv:
         return cur
 
 
+def check_tl_side(ctx, env, tag):
+    """the table sent to the driver must satisfy the hypotheses of c19_tl_total (Ids4, NoBareCycle R) and the driver's
+    depth fuel (len/4+2)(|tbl|+2) must dominate tlFuel R len = (len/4+1)(R+2), i.e. R <= |tbl|"""
+    if getattr(env, 'side', None) is not None:
+        return env.side
+    a = ctx.model.run([f'costtlside {env.table}'])[0].split()
+    env.side = a
+    rows = env.table.count('|') + 1
+    if a[0] == 'ok' and a[2] == 'none':
+        check_bare_cycle(ctx, env, tag)
+    if a[0] != 'ok' or a[1] != '1' or a[2] == 'none' or int(a[2]) > rows:
+        ctx.corr_broken(f'TL table of {tag} violates the side conditions of c19_tl_total (ids4={a[1:2]}, bare depth={a[2:3]}): '
+                        f'a bare-reference cycle makes deserialize recurse without consuming input')
+    else:
+        ctx.count(f'tl-table:{tag}:rows={rows},bareDepth={a[2]},maxFields={a[3]}')
+    return a
+
+
+def check_bare_cycle(ctx, env, tag):
+    """NoBareCycle on the library itself: a schema that (transitively) contains itself as a bare field makes the bare parse
+    of the EMPTY input recurse without consuming anything (c19_tl_bare_cycle_diverges) -- a concrete failing input."""
+    rows = env.table.split('|')
+    g = []
+    for r in rows:
+        fs = r.split(':')[1]
+        g.append([int(f.split('?')[-1][1:]) for f in ([] if fs == '-' else fs.split(';'))
+                  if f.split('?')[-1][0] in 'sv' and f.split('?')[-1][1:] != 'x'])
+    state = {}
+
+    def on_cycle(v):
+        stack = [(v, iter(g[v]))]
+        state[v] = 1
+        while stack:
+            u, it = stack[-1]
+            nxt = next(it, None)
+            if nxt is None:
+                state[u] = 2
+                stack.pop()
+            elif nxt < len(g) and state.get(nxt) == 1:
+                return nxt
+            elif nxt < len(g) and nxt not in state:
+                state[nxt] = 1
+                stack.append((nxt, iter(g[nxt])))
+        return None
+    for v in range(min(len(g), len(env.lst))):
+        if v in state:
+            continue
+        c = on_cycle(v)
+        if c is not None and c < len(env.lst):
+            sch = env.lst[c]
+            m = metered('tl', 3, lambda: env.schemas.deserialize(b'', False, sch.args))
+            ctx.case(('tl-bare-cycle', sch.name), sample={'op': 'tl-bare-cycle', 'schema': sch.name, 'lines': m.lines})
+            if m.aborted or isinstance(m.exc, RecursionError) or m.lines > budget('tl', 3):
+                ctx.fail(f'tl:bare-cycle:{sch.name}', f'schema {sch.name} contains itself through bare fields: deserialize(b"", False, args) '
+                         f'recurses without consuming input ({m.lines} lines, {type(m.exc).__name__ if m.exc else m.aborted})',
+                         {'tl': '', 'mode': sch.name, 'tag': tag}, f'>= {m.lines} lines', f'<= {budget("tl", 3)} lines')
+            return True
+    return False
+
+
 def check_tl(ctx, env, items, tag, f16_fixed=True):
     """items: list of (bytes, mode) ; mode None = boxed, or a schema name (bare).
     f16_fixed=False: the library still has the unguarded vector loop (known finding F16); inputs on which the MODEL's
@@ -606,6 +776,7 @@ def check_tl(ctx, env, items, tag, f16_fixed=True):
     reqs = []
     for bs, mode in items:
         reqs.append(('x' if mode is None else str(env.sid(mode))) + ':' + (bs.hex() or '-'))
+    check_tl_side(ctx, env, tag)
     ans = ctx.model.run([f'costtl {env.table} ' + ','.join(reqs)])[0]
     assert ans.startswith('ok '), ans[:200]
     outs = ans[3:].split(',')
@@ -696,6 +867,8 @@ def run(ctx):
         check_dag(ctx, fam_diamonds(k), f'diamonds{k}')
     for layers, width in (((6, 8), (40, 5)) if not ctx.thorough else ((6, 8), (40, 5), (100, 8), (250, 4))):
         check_dag(ctx, fam_wide(layers, width), f'wide{layers}x{width}')
+    for d, w in (((50, 2),) if not ctx.thorough else ((50, 1), (50, 2), (300, 2), (100, 4))):
+        check_dag(ctx, fam_levels(d, w), f'levels{d}x{w}', flagsets=('000',))
     for t in range(ctx.n(12, 120)):
         check_dag(ctx, fam_random(rng, rng.choice([2, 5, 17, 60, 200])), f'rand{t}', flagsets=(rng.choice(['000', '100', '010', '111', '101']),))
     if CALIBRATE:
@@ -761,8 +934,11 @@ def run(ctx):
         check_tl(ctx, env, tl_vector_family(rng, env, ctx.n(60, 600)), 'tl-vector')
     else:
         ctx.notes.append('TL vector-length family skipped: the canonical F16 input still loops (known finding); it runs once the repair is merged')
+    if not ctx.thorough:
+        check_tl_side(ctx, TlEnv(full=True), 'tl-full-table')      # the table of c19_tl_bundled_table
     if ctx.thorough:
         envf = TlEnv(full=True)
+        check_tl_side(ctx, envf, 'tl-full-table')
         items = [(envf.gen_boxed(rng, rng.randrange(0, 4)), None) for _ in range(300)]
         items += [(mutate_bytes(rng, b), None) for b, _ in items[:100]]
         check_tl(ctx, envf, items, 'tl-full-table', f16_fixed=fixed)
@@ -790,6 +966,9 @@ def replay(ctx, payload):
         m = re.match(r'chain(\d+)x(\d+)$', fam)
         if m:
             check_dag(ctx, fam_chain(int(m.group(1)), int(m.group(2))), fam)
+        m = re.match(r'levels(\d+)x(\d+)$', fam)
+        if m:
+            check_dag(ctx, fam_levels(int(m.group(1)), int(m.group(2))), fam, flagsets=('000',))
         m = re.match(r'diamonds(\d+)$', fam)
         if m:
             check_dag(ctx, fam_diamonds(int(m.group(1))), fam)
